@@ -10,6 +10,7 @@ import (
 	"math/big"
 	"os"
 	"sort"
+	"strings"
 
 	"cvh/lib"
 
@@ -87,6 +88,8 @@ func main() {
 		c14(sum)
 	case "C32":
 		c32(sum)
+	case "C21":
+		c21(sum)
 	default:
 		fmt.Fprintln(os.Stderr, "unknown prop", *prop)
 		os.Exit(2)
@@ -917,7 +920,11 @@ func meterBranch(name string, a, b *big.Int) string {
 func c32(sum *lib.Summary) {
 	rng := lib.NewRng(*seed)
 	cw := &lib.CaseWriter{Dir: *dir, Prefix: "cases_C32", Header: "From CV Require Import Num.MeterCases.",
-		ElemType: "mop * Z * Z * Z", CheckFn: "check_meter", PerFile: 500}
+		ElemType: "mop * Z * Z * Z", CheckFn: "check_meter", PerFile: 700}
+	cwv := &lib.CaseWriter{Dir: *dir, Prefix: "cases_C32v", Header: "From CV Require Import Num.MeterCases.",
+		ElemType: "Z * Z * osumm", CheckFn: "check_summ", PerFile: 700}
+	cws := &lib.CaseWriter{Dir: *dir, Prefix: "cases_C32s", Header: "From CV Require Import Num.MeterCases.",
+		ElemType: "mop * osumm * Z", CheckFn: "check_meter_s", PerFile: 700}
 	rec := &lib.MemRecorder{}
 	inter := lib.NewInterp(rec)
 	distinct := map[string]bool{}
@@ -951,9 +958,31 @@ func c32(sum *lib.Summary) {
 				map[string]any{"op": o.Name, "a": a.String(), "b": b.String(), "metered_bytes": est, "result_bytes": need, "branch": br, "via": "common.New...BigIntMemoryUsage"})
 		}
 		ncoq++
-		if *tier == "thorough" || ncoq%7 == 0 || est < need {
-			cw.Add(fmt.Sprintf("(%s, %s, %s, %d)", o.Name, lib.Z(a), lib.Z(b), est),
-				map[string]any{"op": o.Name, "a": trunc(a.String()), "b": trunc(b.String()), "a_words": len(a.Bits()), "b_words": len(b.Bits()), "metered": est, "branch": br})
+		// Coq's parser is slow on huge literals: operands of at most 3 words go to the Coq model in full
+		// (plus a check of the Go-side summary); every sampled case goes as a summary.
+		sm := func() string {
+			bo := func(b bool) string {
+				if b {
+					return "true"
+				}
+				return "false"
+			}
+			shift := big.NewInt(0)
+			if b.IsUint64() {
+				shift = b
+			}
+			return fmt.Sprintf("{| s_wa := %d; s_wb := %d; s_a_ge0 := %s; s_a_le0 := %s; s_b_ge0 := %s; s_b_le0 := %s; s_lt := %s; s_blb := %d; s_b_zero := %s; s_shift := %s |}",
+				len(a.Bits()), len(b.Bits()), bo(a.Sign() >= 0), bo(a.Sign() <= 0), bo(b.Sign() >= 0), bo(b.Sign() <= 0), bo(a.Cmp(b) < 0), b.BitLen(), bo(b.Sign() == 0), lib.Z(shift))
+		}
+		desc := map[string]any{"op": o.Name, "a": trunc(a.String()), "b": trunc(b.String()), "a_words": len(a.Bits()), "b_words": len(b.Bits()), "metered": est, "branch": br}
+		if len(a.Bits()) <= 3 && len(b.Bits()) <= 3 && (*tier == "thorough" || ncoq%7 == 0) {
+			cw.Add(fmt.Sprintf("(%s, %s, %s, %d)", o.Name, lib.Z(a), lib.Z(b), est), desc)
+			if b.IsUint64() || true {
+				cwv.Add(fmt.Sprintf("(%s, %s, %s)", lib.Z(a), lib.Z(b), sm()), desc)
+			}
+		}
+		if *tier == "thorough" || ncoq%10 == 0 || est < need {
+			cws.Add(fmt.Sprintf("(%s, %s, %d)", o.Name, sm(), est), desc)
 		}
 		if len(sum.Samples) < 8 && len(a.Bits()) > 1 {
 			sum.Sample(map[string]any{"op": o.Name, "a_words": len(a.Bits()), "b_words": len(b.Bits()), "b": trunc(b.String()), "metered": est, "result_bytes": need})
@@ -1048,7 +1077,9 @@ func c32(sum *lib.Summary) {
 		check(mops[10], a, big.NewInt(0), false)
 	}
 	cw.Close()
-	sum.CaseFiles = cw.Files
+	cwv.Close()
+	cws.Close()
+	sum.CaseFiles = append(append(cw.Files, cwv.Files...), cws.Files...)
 	// fixed-size big types: metered amount is the fixed usage, result must fit
 	for _, tn := range []string{"Int128", "Int256", "UInt128", "UInt256", "Word128", "Word256"} {
 		t := lib.IntTypeByName(tn)
@@ -1085,4 +1116,273 @@ func trunc(s string) string {
 		return s[:24] + fmt.Sprintf("...(%d digits)...", len(s)) + s[len(s)-12:]
 	}
 	return s
+}
+
+// ---------------------------------------------------------------------------- C21 InclusiveRange
+
+func coqOptZ(z *big.Int) string {
+	if z == nil {
+		return "None"
+	}
+	return "(Some " + lib.Z(z) + ")"
+}
+
+func c21(sum *lib.Summary) {
+	rng := lib.NewRng(*seed)
+	cwi := &lib.CaseWriter{Dir: *dir, Prefix: "cases_C21iter", Header: "From CV Require Import Num.RangeCases.",
+		ElemType: "ikind * Z * Z * option Z * res (list Z)", CheckFn: "check_iter", PerFile: 150}
+	cwc := &lib.CaseWriter{Dir: *dir, Prefix: "cases_C21cont", Header: "From CV Require Import Num.RangeCases.",
+		ElemType: "ikind * Z * Z * option Z * Z * res bool", CheckFn: "check_contains", PerFile: 500}
+	sum.Rule = "all 20 integer/word element types: (start,end,step) from boundary values (min, min+1, max-1, max, 0, +-1, +-2, 2^k neighbours) and random " +
+		"values, with explicit steps (1,2,3,7, -1,-2,-3, large, zero, wrong direction) and the default step, restricted to sequences of at most 300 elements; " +
+		"iteration (for-in collecting all elements, cut off after 400) and contains(x) for x in {start, end, start+-step, end+-1, members, non-members, type min/max} " +
+		"run as Cadence scripts in BOTH engines; compared with (1) the arithmetic-sequence oracle in Go (direct property check) and (2) the Coq model via vm_compute. " +
+		"non-trivial = constructed successfully with >= 2 elements or touching a type bound; distinct = distinct (type,start,end,step[,needle])"
+	h := lib.NewHost()
+	distinct := map[string]bool{}
+	budget := 40
+	if *tier == "thorough" {
+		budget = 600
+	}
+	for _, t := range lib.IntTypes {
+		// candidate endpoints
+		var pts []*big.Int
+		for _, z := range t.Lattice() {
+			if z.BitLen() <= 10 || (t.Max() != nil && new(big.Int).Sub(t.Max(), z).BitLen() <= 4) || (t.Min() != nil && new(big.Int).Sub(z, t.Min()).BitLen() <= 4) {
+				pts = append(pts, z)
+			}
+		}
+		if t.Max() != nil {
+			for _, d := range []int64{2, 3, 5, 6} {
+				pts = append(pts, new(big.Int).Sub(t.Max(), big.NewInt(d)))
+				if t.Min().Sign() < 0 {
+					pts = append(pts, new(big.Int).Add(t.Min(), big.NewInt(d)))
+				}
+			}
+		}
+		steps := []*big.Int{nil, big.NewInt(1), big.NewInt(2), big.NewInt(3), big.NewInt(7), big.NewInt(-1), big.NewInt(-2), big.NewInt(-3), big.NewInt(0), big.NewInt(100)}
+		type tri struct{ s, e, st *big.Int }
+		var tris []tri
+		for n := 0; n < budget*6 && len(tris) < budget; n++ {
+			s, e := lib.Pick(rng, pts), lib.Pick(rng, pts)
+			if rng.Chance(1, 4) {
+				s = t.Random(rng)
+				e = new(big.Int).Add(s, big.NewInt(int64(rng.Intn(60)-30)))
+			}
+			st := lib.Pick(rng, steps)
+			if !t.InRange(s) || !t.InRange(e) || (st != nil && !t.InRange(st)) {
+				continue
+			}
+			// at most 300 elements
+			a := big.NewInt(1)
+			if st != nil && st.Sign() != 0 {
+				a = new(big.Int).Abs(st)
+			}
+			cnt := new(big.Int).Quo(new(big.Int).Abs(new(big.Int).Sub(e, s)), a)
+			if cnt.Cmp(big.NewInt(299)) > 0 {
+				continue
+			}
+			tris = append(tris, tri{s, e, st})
+		}
+		// always include the recorded witnesses
+		switch t.Name {
+		case "UInt8":
+			tris = append(tris, tri{big.NewInt(250), big.NewInt(255), nil})
+		case "Int8":
+			tris = append(tris, tri{big.NewInt(-126), big.NewInt(-128), big.NewInt(-1)}, tri{big.NewInt(-128), big.NewInt(127), big.NewInt(2)})
+		case "Int":
+			tris = append(tris, tri{big.NewInt(0), big.NewInt(10), big.NewInt(3)})
+		case "Word8":
+			tris = append(tris, tri{big.NewInt(250), big.NewInt(255), nil})
+		}
+		for _, tr := range tris {
+			ctor := fmt.Sprintf("InclusiveRange<%s>(%s, %s)", t.Name, tr.s, tr.e)
+			if tr.st != nil {
+				ctor = fmt.Sprintf("InclusiveRange<%s>(%s, %s, step: %s)", t.Name, tr.s, tr.e, tr.st)
+			}
+			// ---- oracle
+			step := tr.st
+			constructOK := true
+			if step == nil {
+				step = big.NewInt(1)
+				if tr.s.Cmp(tr.e) > 0 {
+					step = big.NewInt(-1)
+					if t.Kind == "unsigned" || t.Kind == "word" || t.Kind == "uint" {
+						constructOK = false
+					}
+				}
+			} else if step.Sign() == 0 || (tr.s.Cmp(tr.e) < 0 && step.Sign() < 0) || (tr.s.Cmp(tr.e) > 0 && step.Sign() > 0) {
+				constructOK = false
+			}
+			var want []*big.Int
+			var pastEnd *big.Int
+			if constructOK {
+				cur := new(big.Int).Set(tr.s)
+				for {
+					if (step.Sign() > 0 && cur.Cmp(tr.e) > 0) || (step.Sign() < 0 && cur.Cmp(tr.e) < 0) {
+						pastEnd = cur
+						break
+					}
+					want = append(want, cur)
+					cur = new(big.Int).Add(cur, step)
+				}
+			}
+			key := fmt.Sprintf("%s %s", t.Name, ctor)
+			if constructOK && (len(want) >= 2 || !t.InRange(pastEnd)) && !distinct[key] {
+				distinct[key] = true
+				sum.DistinctNontrivial++
+			}
+			// ---- iteration in both engines
+			src := fmt.Sprintf("access(all) fun main(): [%s] { var r: [%s] = []; for x in %s { r.append(x); if r.length > 400 { panic(\"FUEL\") } }; return r }", t.Name, t.Name, ctor)
+			var obsRes [2]string
+			for ei, vm := range []bool{false, true} {
+				out := h.RunScript(src, nil, vm)
+				sum.Evaluations++
+				var got []*big.Int
+				cls := out.Class
+				if cls == "Panic" {
+					cls = "OutOfFuel"
+				}
+				if cls == "" {
+					arr := out.Value.String()
+					got = parseIntArray(arr)
+				}
+				obsRes[ei] = cls + fmt.Sprint(got)
+				sum.Count("iter " + map[bool]string{true: "ok", false: "err " + cls}[cls == ""])
+				// direct property check
+				if constructOK {
+					okSeq := cls == "" && sameSeq(got, want)
+					if !okSeq {
+						k := "range-iter:other"
+						if (cls == lib.EOverflow || cls == lib.EUnderflow) && !t.InRange(pastEnd) {
+							k = "range-iter:overflow-past-end"
+						} else if t.Kind == "word" && !t.InRange(pastEnd) && len(got) >= len(want) && sameSeq(got[:min(len(got), len(want))], want) || (cls == "OutOfFuel" && t.Kind == "word" && !t.InRange(pastEnd)) {
+							// the required elements are produced, then current+step wraps below end and iteration goes on
+							k = "range-iter:word-wraps-past-end"
+						}
+						sum.Fail(k, fmt.Sprintf("for-in over %s (vm=%v): observed %s%v, required the sequence %v without error", ctor, vm, cls, got, want),
+							map[string]any{"script": src, "vm": vm, "observed_error": cls, "observed": fmt.Sprint(got), "required": fmt.Sprint(want)})
+					}
+				} else if cls == "" {
+					sum.Fail("range-construct:accepted-invalid", fmt.Sprintf("%s constructed although step is zero / moves away from end (vm=%v)", ctor, vm),
+						map[string]any{"script": src, "vm": vm})
+				}
+				if ei == 0 {
+					obs := "(Err " + cls + ")"
+					if cls == "" {
+						parts := make([]string, len(got))
+						for i, g := range got {
+							parts[i] = lib.Z(g)
+						}
+						obs = "(Ok [" + strings.Join(parts, ";") + "])"
+					}
+					cwi.Add(fmt.Sprintf("(%s, %s, %s, %s, %s)", t.CoqKind(), lib.Z(tr.s), lib.Z(tr.e), coqOptZ(tr.st), obs),
+						map[string]any{"type": t.Name, "range": ctor, "observed": cls + fmt.Sprint(got), "what": "iteration"})
+					sum.Sample(map[string]any{"range": ctor, "iteration": cls + fmt.Sprint(got)})
+				}
+			}
+			if obsRes[0] != obsRes[1] {
+				sum.Fail("range-iter:engines-differ", fmt.Sprintf("for-in over %s: interpreter %s, VM %s", ctor, obsRes[0], obsRes[1]), map[string]any{"script": src})
+			}
+			if !constructOK {
+				continue
+			}
+			// ---- contains
+			var needles []*big.Int
+			addN := func(z *big.Int) {
+				if t.InRange(z) {
+					needles = append(needles, z)
+				}
+			}
+			addN(tr.s)
+			addN(tr.e)
+			addN(new(big.Int).Add(tr.s, step))
+			addN(new(big.Int).Sub(tr.s, step))
+			addN(new(big.Int).Add(tr.e, big.NewInt(1)))
+			addN(new(big.Int).Sub(tr.e, big.NewInt(1)))
+			if len(want) > 2 {
+				addN(want[len(want)-1])
+				addN(new(big.Int).Add(want[rng.Intn(len(want))], big.NewInt(1)))
+				addN(want[rng.Intn(len(want))])
+			}
+			if t.Max() != nil {
+				addN(t.Max())
+				addN(t.Min())
+			}
+			for _, x := range needles {
+				member := false
+				for _, w := range want {
+					if w.Cmp(x) == 0 {
+						member = true
+					}
+				}
+				csrc := fmt.Sprintf("access(all) fun main(): Bool { let x: %s = %s; return %s.contains(x) }", t.Name, x, ctor)
+				var obs [2]string
+				for ei, vm := range []bool{false, true} {
+					out := h.RunScript(csrc, nil, vm)
+					sum.Evaluations++
+					cls := out.Class
+					val := ""
+					if cls == "" {
+						val = out.Value.String()
+					}
+					obs[ei] = cls + val
+					sum.Count("contains " + cls + val)
+					if cls != "" || val != fmt.Sprint(member) {
+						k := "range-contains:other"
+						diff := new(big.Int).Sub(x, tr.s)
+						if cls == "" && val == "true" && !member && x.Cmp(tr.e) == 0 {
+							k = "range-contains:end-not-member"
+						} else if (cls == lib.EOverflow || cls == lib.EUnderflow) && !t.InRange(diff) {
+							k = "range-contains:diff-overflow"
+						}
+						sum.Fail(k, fmt.Sprintf("%s.contains(%s) (vm=%v) = %s%s, required %v", ctor, x, vm, cls, val, member),
+							map[string]any{"script": csrc, "vm": vm, "observed": cls + val, "required": member})
+					}
+					if ei == 0 {
+						o := "(Err " + cls + ")"
+						if cls == "" {
+							o = "(Ok " + val + ")"
+						}
+						cwc.Add(fmt.Sprintf("(%s, %s, %s, %s, %s, %s)", t.CoqKind(), lib.Z(tr.s), lib.Z(tr.e), coqOptZ(tr.st), lib.Z(x), o),
+							map[string]any{"type": t.Name, "range": ctor, "needle": x.String(), "observed": cls + val, "what": "contains"})
+					}
+				}
+				if obs[0] != obs[1] {
+					sum.Fail("range-contains:engines-differ", fmt.Sprintf("%s.contains(%s): interpreter %s, VM %s", ctor, x, obs[0], obs[1]), map[string]any{"script": csrc})
+				}
+			}
+		}
+	}
+	cwi.Close()
+	cwc.Close()
+	sum.CaseFiles = append(cwi.Files, cwc.Files...)
+}
+
+func parseIntArray(s string) []*big.Int {
+	s = strings.Trim(s, "[] ")
+	if s == "" {
+		return nil
+	}
+	var out []*big.Int
+	for _, p := range strings.Split(s, ",") {
+		z, ok := new(big.Int).SetString(strings.TrimSpace(p), 10)
+		if !ok {
+			panic("bad int " + p)
+		}
+		out = append(out, z)
+	}
+	return out
+}
+
+func sameSeq(a, b []*big.Int) bool {
+	if len(a) != len(b) {
+		return false
+	}
+	for i := range a {
+		if a[i].Cmp(b[i]) != 0 {
+			return false
+		}
+	}
+	return true
 }
